@@ -39,6 +39,8 @@ CURATED = [
     ("raw", "Prefixed(Int64sb, GreedyBytes)"), ("raw", "Prefixed(Int64ub, GreedyBytes)"), ("raw", "Struct('n'/Int64ul, 'd'/Bytes(this.n))"),
     ("raw", "Struct('n'/Int64ub, 'd'/FixedSized(this.n, GreedyBytes))"), ("raw", "Struct('n'/Int64ub, Seek(this.n), 'b'/Byte)"), ("raw", "Struct('n'/Int64ub, 'p'/Pointer(this.n, Byte))"),
     ("raw", "Struct('n'/Int64ub, 'a'/Array(this.n, Pass))") if False else ("raw", "Struct('n'/Int64ub, 'd'/Padded(this.n, Byte))"), ("raw", "Prefixed(VarInt, GreedyRange(Int16ub))"), ("raw", "PrefixedArray(Int32sb, Byte)"), ("raw", "PrefixedArray(VarInt, VarInt)"),
+    ("raw", "PrefixedArray(Int64ub, Byte)"), ("raw", "Struct('n'/Int64ub, 'a'/Array(this.n, Byte))"), ("raw", "Struct('n'/Int64sl, 'a'/Array(this.n, Int16ub))"),
+    ("raw", "Struct('n'/Int64ub, 'a'/LazyArray(this.n, Byte))"), ("raw", "Struct('n'/BytesInteger(16), 'a'/Array(this.n, Byte))"), ("raw", "Struct('n'/Int64ub, 'a'/Array(this.n, Byte, discard=True))"),
     ("raw", "Struct('o'/Int8sb, 'p'/Pointer(this.o, Byte))"), ("raw", "Struct('o'/Int8ub, 'p'/Pointer(this.o, Int16ub), 'q'/Byte)"), ("raw", "Struct('o'/Int8sb, Seek(this.o), 'b'/Byte)"),
     ("raw", "Struct('o'/Int8sb, Seek(this.o, 1), 'b'/Byte)"), ("raw", "Struct('o'/Int8sb, Seek(this.o, 2), 'b'/Byte)"), ("raw", "Struct('w'/Byte, Seek(1, this.w))"),
     ("raw", "Struct('a'/Peek(Int16ub), 'b'/Byte)"), ("raw", "Union(0, 'a'/Int16ub, 'b'/Byte)"), ("raw", "Union('b', 'a'/Int16ub, 'b'/VarInt)"), ("raw", "Union(None, 'a'/Byte)"),
@@ -128,6 +130,12 @@ class FaultyStream:
         pass
 
 
+# lazy constructs skip fields instead of reading them: a truncated encoding must still be rejected at parse time
+LAZY_TRUNC = ["LazyStruct('a'/Int16ub, 'b'/Bytes(2))", "LazyArray(2, Int16ub)", "Struct('a'/Lazy(Int32ub), 'b'/Byte)", "LazyStruct('n'/Byte, 'p'/Prefixed(Byte, Bytes(2)), 't'/Byte)",
+              "LazyArray(2, Prefixed(Byte, Bytes(1)))", "Struct('h'/Byte, 'l'/LazyStruct('x'/Int24ub), 't'/Int16ub)", "Prefixed(Byte, LazyStruct('x'/Int16ub, 'y'/Byte))",
+              "LazyStruct('a'/Byte, 'v'/VarInt, 'b'/Int16ub)", "Struct('l'/Lazy(Prefixed(Byte, Int16ub)), 't'/Byte)", "LazyStruct('a'/Padded(3, Byte), 'b'/Aligned(2, Byte))"]
+
+
 def _truncatable(spec):
     bad = ("optional", "select", "greedybytes", "greedyrange", "nullstripped", "peek", "pointer", "xor", "default", "if", "switch", "ifthenelse", "arrayctx", "bytesctx")
     if any(x[0] in bad for x in common.walk(spec)):
@@ -152,6 +160,8 @@ def instances(tier, seed):
     for s in generate(tier, seed, depth2=60 if tier == "quick" else 600):
         if _truncatable(s):
             out.append(dict(name="truncation  %s" % src(s), params=dict(kind="truncation", spec=J(s), tier=tier), expect=["ok"]))
+    for lz in LAZY_TRUNC:
+        out.append(dict(name="truncation (lazy)  %s" % lz, params=dict(kind="lazytrunc", source=lz, n=6 if tier == "quick" else 8), expect=["ok"]))
     K = 11 if tier == "quick" else 23
     for t in FAULT_TARGETS:
         for kind in FAULT_KINDS:
@@ -178,7 +188,10 @@ def harness(ctx, C, p):
     if kind == "arbitrary":
         spec = T(p["spec"])
         d = mk(C, src(spec))
-        data = ctx.bytes("data", p["n"])
+        n = p["n"]
+        # the instance has been used before, successfully or not (cut-off inputs included): what follows must not depend on it
+        common.warmup(d, n, (bytes(n), bytes((i * 37 + 1) & 0xFF for i in range(n + 2)), bytes((i * 91 + 0x80) & 0xFF for i in range(max(0, n - 1))), b"\xff"))
+        data = ctx.bytes("data", n)
         r = api.outcome(d.parse, data)
         if r.ok:
             return "accept"
@@ -197,6 +210,22 @@ def harness(ctx, C, p):
             r = api.outcome(d.parse, data[:k])
             ctx.check("prefix of %d/%d bytes is rejected" % (k, len(data)), not r.ok)
             ctx.check("prefix of %d/%d bytes is rejected with StreamError (got %s)" % (k, len(data), type(r.exc).__name__), isinstance(r.exc, C.StreamError))
+        return "ok"
+    if kind == "lazytrunc":
+        lazy = mk(C, p["source"])
+        eager = mk(C, p["source"].replace("LazyStruct(", "Struct(").replace("LazyArray(", "Array(").replace("Lazy(", "("))
+        data = ctx.bytes("data", p["n"])
+        st = ctx.stream(data)
+        r = api.outcome(eager.parse_stream, st)
+        if not r.ok:
+            return "eager-reject"
+        end = st.tell()
+        rl = api.outcome(lazy.parse, data[:end])
+        ctx.check("the complete encoding is accepted by the lazy construct", rl.ok)
+        for k in range(end):
+            rk = api.outcome(lazy.parse, data[:k])
+            ctx.check("prefix of %d/%d bytes is rejected by the lazy construct at parse time" % (k, end), not rk.ok)
+            ctx.check("prefix of %d/%d bytes is rejected with StreamError (got %s)" % (k, end, type(rk.exc).__name__), isinstance(rk.exc, C.StreamError))
         return "ok"
     return _fault(ctx, C, p)
 
